@@ -320,6 +320,52 @@ fn verif_c18_enumeration() {
             }
         }
     }
+    // ---- level 5: histories over the environment. The manifest directory is read at EVERY expansion (one compiler /
+    // proc-macro server process expands the derive for several consumer crates): every sequence of up to 3 (thorough: 4)
+    // settings of CARGO_MANIFEST_DIR - two real crates, a directory with a blank in its name, unset - and after each step
+    // the paths must be the ones of the setting in force, an unset variable an error.
+    {
+        let settings: Vec<Option<String>> = vec![Some(FIX.to_string()), Some(format!("{}/sub", FIX)), Some("/no such dir/crate b".to_string()), None];
+        let ast: syn::DeriveInput = syn::parse_str("#[graphql(schema_path = \"schema.graphql\", query_path = \"query.graphql\")]\nstruct Op;").expect("ast");
+        let max_len = if tier == "quick" { 3 } else { 4 };
+        let mut seqs: Vec<Vec<usize>> = vec![vec![]];
+        let mut frontier: Vec<Vec<usize>> = vec![vec![]];
+        for _ in 0..max_len {
+            let mut next = Vec::new();
+            for sq in &frontier {
+                for i in 0..settings.len() {
+                    let mut n = sq.clone();
+                    n.push(i);
+                    next.push(n);
+                }
+            }
+            seqs.extend(next.iter().cloned());
+            frontier = next;
+        }
+        for sq in seqs.iter().filter(|s| !s.is_empty()) {
+            ctx.cases += 1;
+            for (step, i) in sq.iter().enumerate() {
+                match &settings[*i] {
+                    Some(d) => std::env::set_var("CARGO_MANIFEST_DIR", d),
+                    None => std::env::remove_var("CARGO_MANIFEST_DIR"),
+                }
+                let got = build_query_and_schema_path(&ast);
+                let ok = match (&settings[*i], &got) {
+                    (Some(d), Ok((qp, sp))) => *qp == std::path::PathBuf::from(format!("{}/query.graphql", d)) && *sp == std::path::Path::new(d).join("schema.graphql"),
+                    (None, Err(_)) => true,
+                    _ => false,
+                };
+                if !ok {
+                    ctx.violations += 1;
+                    let shown = match &got { Ok((qp, sp)) => format!("{} {}", qp.display(), sp.display()), Err(e) => format!("error: {}", e) };
+                    let _ = writeln!(ctx.out, "{{\"kind\":\"paths_not_resolved_against_manifest_dir\",\"group\":\"manifest_dir_history\",\"input\":\"settings {:?} (indices into [fixture, fixture/sub, a directory with a blank, unset]), step {}\",\"detail\":\"{}\"}}",
+                        sq, step, esc(&shown));
+                    break;
+                }
+            }
+        }
+        std::env::set_var("CARGO_MANIFEST_DIR", FIX);
+    }
     let summary = format!(
         "{{\"kind\":\"summary\",\"cases\":{},\"violations\":{},\"distinct_observations\":{},\"samples\":[{}]}}\n",
         ctx.cases, ctx.violations, ctx.distinct_obs.len(),
